@@ -31,7 +31,7 @@ CORPUS = os.path.join(VERIF, "corpus", "C14")
 # region (alarms attributed, logged as a note) and kept out of probes() until the coordinator lists it
 CANDIDATES = (L.R_CSR8, L.R_LITTLE, L.R_AXIL_RD)
 
-QUICK = {"random_socs": 7, "mem": 600, "export": 500, "max_regs": 14, "sweeps": 6, "verdicts": 40, "irqs": 12}
+QUICK = {"random_socs": 4, "mem": 600, "export": 500, "max_regs": 14, "sweeps": 6, "verdicts": 40, "irqs": 12}
 THOROUGH = {"random_socs": 80, "mem": 6000, "export": 4000, "max_regs": None, "sweeps": 48, "verdicts": 300, "irqs": 150}
 
 
@@ -60,6 +60,7 @@ def grid(rng):
         dict(bus="wishbone", bus_dw=32, ic="crossbar", csr_dw=32, paging=0x400, ordering="big", csr_aw=15, csr_origin=0xf0000000,
              mem_prob=1.0, shadow_prob=1.0),
         dict(bus="wishbone", bus_dw=64, ic="shared", csr_dw=32, paging=0x1000, ordering="big", csr_aw=14, csr_origin=0x82000000),
+        dict(bus="wishbone", bus_dw=128, ic="shared", csr_dw=32, paging=0x2000, ordering="big", csr_aw=17, csr_origin=0x40000000),
         dict(bus="wishbone", bus_dw=64, ic="crossbar", csr_dw=32, paging=0x800, ordering="big", csr_aw=16, bus_aw=64,
              csr_origin=0x200000000),
         dict(bus="axi-lite", bus_dw=32, ic="shared", csr_dw=32, paging=0x800, ordering="big", csr_aw=14, csr_origin=0x82000000,
@@ -155,8 +156,17 @@ def run_corpus(ctx, dis):
 def mode_c(ctx, plan, dis):
     rng = random.Random(ctx.rng.getrandbits(48))
     tmp = tempfile.mkdtemp(prefix="c14_")
+    cases = []
     try:
-        cases = [L.mem_image_case(rng, tmp) for _ in range(plan["mem"])]
+        for _ in range(plan["mem"]):
+            st_ = rng.getstate()
+            try:
+                cases.append(L.mem_image_case(rng, tmp))
+            except Exception:
+                import traceback
+                dis.append(Dis("crash", {"kind": "memimage-crash", "rng_state": repr(st_)[:200]}, alarm=traceback.format_exc()[-1200:]))
+                if sum(1 for d in dis if d.kind == "crash") > 5:
+                    break
     finally:
         shutil.rmtree(tmp, ignore_errors=True)
     lines = []
@@ -176,7 +186,15 @@ def mode_c(ctx, plan, dis):
     ctx.cov.add_cases("get_mem_data images (1-70 bytes x 32/64/128 bit x endianness x base/offset)", len(cases), len(cases), False)
     if len(ctx.cov.samples) < 8 and cases:
         ctx.cov.samples.append({"call": cases[0]["line"][:200], "real": cases[0]["real"][:200]})
-    cases = [L.export_case(rng) for _ in range(plan["export"])]
+    cases = []
+    for _ in range(plan["export"]):
+        try:
+            cases.append(L.export_case(rng))
+        except Exception:
+            import traceback
+            dis.append(Dis("crash", {"kind": "export-crash"}, alarm=traceback.format_exc()[-1200:]))
+            if sum(1 for d in dis if d.kind == "crash") > 5:
+                break
     ans = ctx.lean.call_batch([c["line"] for c in cases])
     for c, a in zip(cases, ans):
         a = a.split(" # S ")[0]
@@ -197,9 +215,14 @@ def run_sweeps(ctx, plan, dis):
     rng = random.Random(ctx.rng.getrandbits(48))
     t0 = time.time()
     with _pool() as pool:
-        sweeps = pool.map(L.sweep_case, [(rng.getrandbits(32),) for _ in range(plan["sweeps"])], chunksize=1)
-        verdicts = pool.map(L.verdict_case, [(rng.getrandbits(32),) for _ in range(plan["verdicts"])], chunksize=4)
-        irqs = pool.map(L.irq_case, [(rng.getrandbits(32),) for _ in range(plan["irqs"])], chunksize=2)
+        sweeps = pool.map(L.sweep_task, [(rng.getrandbits(32),) for _ in range(plan["sweeps"])], chunksize=1)
+        verdicts = pool.map(L.verdict_task, [(rng.getrandbits(32),) for _ in range(plan["verdicts"])], chunksize=4)
+        irqs = pool.map(L.irq_task, [(rng.getrandbits(32),) for _ in range(plan["irqs"])], chunksize=2)
+    for group in (sweeps, verdicts, irqs):
+        for c in list(group):
+            if c.get("crash"):
+                dis.append(Dis("crash", c["input"], alarm=c["crash"]))
+                group.remove(c)
     nl = 0
     for c in irqs:
         for a in c["alarms"]:
@@ -399,6 +422,11 @@ def search(ctx, disagreements, proof_info):
     """The oracle is the end-to-end simulation itself: an unattributed alarm is a concrete failing input."""
     tol = tolerated(ctx)
     for d in disagreements:
+        if d.kind == "crash":
+            # building / driving the implementation raised or hung: the configuration is the failing input
+            return {"input": d.input, "oracle": "exception or timeout while building/driving the implementation: " + str(d.alarm)[-600:],
+                    "how": "./check C14 --replay <this file>"}
+    for d in disagreements:
         if d.kind == "oracle":
             if isinstance(d.input, dict) and d.input.get("kind") == "soc":
                 inp, alarms = shrink_soc(d.input, tol)
@@ -439,15 +467,17 @@ def replay(ctx, payload):
         tol = tolerated(ctx)
         bad = [(g, t) for g, t in rec["alarms"] if g is None or g not in tol]
         print("verdict:", rec["verdict"], "stats:", rec["stats"])
+        if inp["cfg"].get("kind") == "verdict":
+            pass
         for g, t in rec["alarms"]:
             print("ALARM [%s] %s" % (g, t))
         if rec["verdict"] == "crash":
             print(rec.get("crash"))
         return 1 if bad or rec["verdict"] == "crash" else 0
     if inp.get("kind") == "irq":
-        r = L.irq_case((inp["seed"],))
-        print("irqs:", r["irqs"], "alarms:", r["alarms"])
-        return 1 if r["alarms"] else 0
+        r = L.irq_task((inp["seed"],))
+        print("irqs:", r.get("irqs"), "alarms:", r["alarms"], r.get("crash", ""))
+        return 1 if r["alarms"] or r.get("crash") else 0
     if inp.get("kind") == "memimage":
         tmp = tempfile.mkdtemp(prefix="c14_")
         try:
